@@ -148,7 +148,7 @@ case "${1:-}" in
     build_mc || exit 2
     export VERIF_TIER="${2:-quick}"
     if [ "$1" = C11 ]; then build_race; fi
-    if [ "$1" = C03 ]; then build_q; fi
+    if [ "$1" = C03 ] || [ "$1" = C11 ]; then build_q; fi
     if build_sched; then
       if [ "$VERIF_TIER" = thorough ] && ! sched_conformance; then
         echo "NOTE: instrumented package fails the repository's own tests in pass-through mode; engine S not used"
